@@ -16,6 +16,7 @@ def parseFilesOp (o : String) : Option Nic.Files.Op :=
   | ["dt", k] => some (.delTs k)
   | ["bi", ks] => some (.batchIng (splitOn ks "+"))
   | ["bv", ks] => some (.batchVs (splitOn ks "+"))
+  | ["bt", ks] => some (.batchTs (splitOn ks "+"))
   | ["rs"] => some .restart
   | _ => none
 
@@ -52,7 +53,8 @@ def runSec (fs : List String) : String × String :=
   let ops := splitOn (kv fs "ops") ";"
   let (_, outs) := ops.foldl (fun (acc : Nic.Sec.St × List String) o =>
     let (op, tag) : Option Nic.Sec.Op × String := match o.splitOn "|" with
-      | ["a", ns, name, t, payload, ver] =>
+      -- the optional 7th field is the object's metadata.uid: the store does not look at it (a re-created object is an update)
+      | ["a", ns, name, t, payload, ver] | ["a", ns, name, t, payload, ver, _] =>
         let v := payloadValid t payload
         (some (.add (ns ++ "/" ++ name) (parseTyp t) (nat ver) v), if v then "valid" else "invalid")
       | ["d", k] => (some (.del k), "-")
